@@ -422,6 +422,13 @@ def run_cache2d(spec, rec, dadi, DFE):
                     a = np.asarray(c1.integrate(shared, None, pdf1, theta, None).data)
                     b = np.asarray(c2.integrate(list(shared) + [rho], None, pdf, theta, None).data)
                     rec.close("mixture-weights", relerr(np.asarray(fm.data), (1 - p2d) * a + p2d * b), 1e-12, site="DFE.mixture", tags=tags)
+                # without the exterior terms both components drop them
+                okm0, fm0 = rec.noraise("mixture-returns", lambda: DFE.mixture(list(shared) + [rho, p2d], None, c1, c2, pdf1, pdf, theta, None, exterior_int=False),
+                                        site="DFE.mixture", tags=dict(tags, exterior=False))
+                if okm0:
+                    a0 = np.asarray(c1.integrate(shared, None, pdf1, theta, None, exterior_int=False).data)
+                    b0 = np.asarray(c2.integrate(list(shared) + [rho], None, pdf, theta, None, exterior_int=False).data)
+                    rec.close("mixture-weights", relerr(np.asarray(fm0.data), (1 - p2d) * a0 + p2d * b0), 1e-12, site="DFE.mixture", tags=dict(tags, exterior=False))
                 okm, fm = rec.noraise("mixture-returns", lambda: DFE.mixture_symmetric_point_pos(list(shared) + [rho, pp, gp, p2d], None, c1, c2, pdf1, pdf, theta),
                                       site="DFE.mixture_symmetric_point_pos", tags=tags)
                 if okm:
